@@ -437,7 +437,8 @@ PROPS["C14"] = {
               "locks/execution.Cancel", "locks/execution.InitializeRetry", "locks/execution.RecordResult", "locks/execution.IsCanceledWithResult",
               "bodies/execution:execution.copy", "bodies/execution:execution.Cancel", "bodies/executor:executor.execute", "bodies/circuitbreakerexecutor:executor.OnFailure",
               "bodies/circuitbreakerexecutor:executor.OnSuccess", "bodies/retry:retryPolicy.ToExecutor", "bodies/timeoutexecutor:executor.Apply", "bodies/hedgeexecutor:executor.Apply",
-              "bodies/result:executionResult.record"],
+              "bodies/result:executionResult.record", "bodies/policyexecutor:BaseExecutor.Apply", "bodies/execution:execution.InitializeRetry",
+              "bodies/execution:execution.RecordResult"],
     "required_theorems": ["Failsafe.Props.C14.lock_discipline_orders_accesses", "Failsafe.Props.C14.no_unordered_pair", "Failsafe.Props.C14.unguarded_accesses_are_the_justified_ones",
                           "Failsafe.Props.C14.getter_call_sites", "Failsafe.Props.C14.live_execution_never_escapes", "Failsafe.Props.C14.calls_under_lock_are_the_listeners",
                           "Failsafe.Props.C14.no_deadlock", "Failsafe.Props.C14.linearizability_verdict_exact"],
@@ -453,7 +454,9 @@ PROPS["C14"] = {
             "(Record*, Metrics, RemainingDelay, State, Open / HalfOpen / Close, TryAcquirePermit, AcquirePermit with a deadline, ReleasePermit, TryAcquirePermits, ReservePermit, "
             "TryReservePermit); every race report must match an open known finding's signature (both access stacks and the goroutine creation site); watchdog for deadlock, "
             "recover for panics. Thorough tier additionally runs the per-property concurrent scenarios (timeout, bulkhead, breaker, hedge, cancel, future) under the race detector",
-    "runners": [stress_runner("shared", "executions and standalone calls sharing policy instances deadlocked or panicked", race=False),
+    "runners": [stress_runner("shared", "executions and standalone calls sharing policy instances deadlocked, panicked, or left a shared bulkhead / half-open breaker short of permits", race=False),
+                stress_runner("cancel", "under load a cancelled execution reported an error other than its cause (C08 per execution)", race=False),
+                stress_runner("future", "under load an ExecutionResult violated the future protocol (C15 per execution)", race=False),
                 stress_runner("shared", "data race between goroutines using shared policy instances or one execution's state", race=True, scale_quick=2, scale_thorough=8)],
     "assumptions": ["the Go scheduler's interleavings are sampled; the race detector's verdict is happens-before based but only for the accesses a run performs",
                     "a breaker state-change listener does not call back into the breaker that invoked it (it runs under the breaker's mutex)",
@@ -472,6 +475,8 @@ PROPS["C19"] = {
     "facts": ["spawnSites", "hedgeChanCap", "mergeReleaseStopsWatcher", "httpClosesPreviousResponse", "httpReleaseOnBodyClose",
               "timerStops",
               "bodies/hedgeexecutor:executor.Apply", "bodies/timeoutexecutor:executor.Apply", "bodies/executor:executor.executeAsync", "bodies/result:executionResult.record",
+              "bodies/execution:execution.Cancel", "bodies/execution:execution.copy", "locks/execution.Cancel", "locks/execution.InitializeRetry", "locks/execution.RecordResult",
+              "locks/execution.IsCanceledWithResult", "bodies/result:executionResult.Cancel",
               "bodies/util:.MergeContexts", "bodies/http:.doRequest", "bodies/http:cancelOnCloseBody.Close",
               "bodies/client:.NewUnaryClientInterceptorWithExecutor", "bodies/server:.NewUnaryServerInterceptorWithExecutor"],
     "required_theorems": ["Failsafe.Props.C19.spawn_sites_are_the_modelled_ones", "Failsafe.Props.C19.attempt_goroutines_finish", "Failsafe.Props.C19.hedge_chan_cap_ok",
@@ -479,7 +484,7 @@ PROPS["C19"] = {
                           "Failsafe.Props.C19.timeout_timer_quiesces", "Failsafe.Props.C19.async_runner_finishes", "Failsafe.Props.C19.retried_responses_closed",
                           "Failsafe.Props.C19.nothing_left_after_close", "Failsafe.Props.C19.http_shape_ok", "Failsafe.Props.C19.hinv_step"],
     "diff": [],
-    "rule": "STRESS leaks: 200 (x scale) executions over six stacks of hedge / timeout / retry / fallback / bulkhead / rate limiter with successes, failures, rejections, timeouts, "
+    "rule": "STRESS leaks: 200 (x scale) executions over nine scenarios (incl. an async result cancelled twice, a context cancel followed by Cancel, a losing hedge attempt whose own timeout elapses while it is slow to return) and six stacks of hedge / timeout / retry / fallback / bulkhead / rate limiter with successes, failures, rejections, timeouts, "
             "context deadlines, context cancellations and async Cancel, function durations 0-1.2 ms around the timeouts; STRESS adapterleaks: 120 (x scale) HTTP calls "
             "(RoundTripper and Request.Do; retry with Retry-After 0, ReturnLastFailure, timeouts that fire, hedges incl. pairs of attempts answered at the same instant, "
             "streamed bodies; long-lived caller context with values, long-lived executor context) and 120 gRPC client / server interceptor calls (retry, hedge, firing "
